@@ -46,8 +46,8 @@ def card_facts(ksort, c, dom):
     b = z3.Const(fresh_name('cb'), ksort)
     empty = z3.K(ksort, z3.BoolVal(False))
     return [c >= 0, (c == 0) == (dom == empty),
-            (c <= 1) == z3.ForAll([a, b], z3.Implies(z3.And(dom[a], dom[b]), a == b)),
-            z3.Implies(c == 0, z3.ForAll([a], z3.Not(dom[a])))]
+            (c <= 1) == sym.forall([a, b], z3.Implies(z3.And(dom[a], dom[b]), a == b)),
+            z3.Implies(c == 0, sym.forall([a], z3.Not(dom[a])))]
 
 
 EXP = z3.Function('np_exp', z3.RealSort(), z3.RealSort())
@@ -80,8 +80,8 @@ def binop(run, op, a, b, inplace):
             r = run.fresh(a.typ, 'concat')
             i = z3.Int(fresh_name('ci'))
             run.assume(r.n == a.n + b.n,
-                       z3.ForAll([i], z3.Implies(z3.And(i >= 0, i < a.n), r.arr[i] == a.arr[i]), patterns=[r.arr[i]]),
-                       z3.ForAll([i], z3.Implies(z3.And(i >= 0, i < b.n), r.arr[a.n + i] == b.arr[i])))
+                       sym.forall([i], z3.Implies(z3.And(i >= 0, i < a.n), r.arr[i] == a.arr[i]), [r.arr[i]]),
+                       sym.forall([i], z3.Implies(z3.And(i >= 0, i < b.n), r.arr[a.n + i] == b.arr[i])))
             return r
     return None
 
@@ -209,17 +209,17 @@ def np_permutation(run, x):
                    z3.Exists([b], z3.And(b >= 0, b < n, z3.Not(IS_NUM(x.arr[b])))))
     coerced = lambda k: z3.If(z3.And(mixed, IS_NUM(k)), STR_OF(k), k)
     run.pc += [res.n == n,
-               z3.ForAll([i], z3.Implies(z3.And(i >= 0, i < n),
+               sym.forall([i], z3.Implies(z3.And(i >= 0, i < n),
                                          z3.And(sig[i] >= 0, sig[i] < n, inv[sig[i]] == i,
                                                 res.arr[i] == coerced(x.arr[sig[i]]))),
-                         patterns=[res.arr[i]]),
-               z3.ForAll([j], z3.Implies(z3.And(j >= 0, j < n), z3.And(inv[j] >= 0, inv[j] < n, sig[inv[j]] == j)),
-                         patterns=[inv[j]]),
-               z3.ForAll([i], z3.And(z3.Not(IS_NUM(STR_OF(i_key(i)))), STR_OF(i_key(i)) != i_key(i))) if False
+                         [res.arr[i]]),
+               sym.forall([j], z3.Implies(z3.And(j >= 0, j < n), z3.And(inv[j] >= 0, inv[j] < n, sig[inv[j]] == j)),
+                         [inv[j]]),
+               sym.forall([i], z3.And(z3.Not(IS_NUM(STR_OF(i_key(i)))), STR_OF(i_key(i)) != i_key(i))) if False
                else z3.BoolVal(True)]
     k = z3.Const(fresh_name('pk'), sym.KeyS)
-    run.pc.append(z3.ForAll([k], z3.Implies(IS_NUM(k), z3.And(z3.Not(IS_NUM(STR_OF(k))), STR_OF(k) != k)),
-                            patterns=[STR_OF(k)]))
+    run.pc.append(sym.forall([k], z3.Implies(IS_NUM(k), z3.And(z3.Not(IS_NUM(STR_OF(k))), STR_OF(k) != k)),
+                            [STR_OF(k)]))
     run.events.append({'kind': 'draw', 'prim': 'np.random.permutation', 'arg': x.get(), 'value': res.get(),
                        'sigma': sig, 'sigma_inv': inv, 'line': run.cur_line})
     run.trusted.add('library contract: np.random.permutation = permutation of the NumPy-coerced elements')
@@ -360,7 +360,7 @@ def call_builtin(run, name, args, kwargs, node):
         if isinstance(lst, SList) and lst.typ.e is TBool:
             i = z3.Int(fresh_name('ai'))
             if name == 'all':
-                return SBool(z3.ForAll([i], z3.Implies(z3.And(i >= 0, i < lst.n), lst.arr[i])))
+                return SBool(sym.forall([i], z3.Implies(z3.And(i >= 0, i < lst.n), lst.arr[i])))
             return SBool(z3.Exists([i], z3.And(i >= 0, i < lst.n, lst.arr[i])))
     if name == 'print':
         return NONE
@@ -387,9 +387,9 @@ def to_set(run, x):
         r = run.fresh(st, 'set')
         k = z3.Const(fresh_name('sk'), st.k.sort())
         i = z3.Int(fresh_name('si'))
-        run.assume(z3.ForAll([k], r.dom[k] == z3.Exists([i], z3.And(i >= 0, i < x.n, x.arr[i] == k)),
-                             patterns=[r.dom[k]]),
-                   z3.ForAll([i], z3.Implies(z3.And(i >= 0, i < x.n), r.dom[x.arr[i]]), patterns=[x.arr[i]]))
+        run.assume(sym.forall([k], r.dom[k] == z3.Exists([i], z3.And(i >= 0, i < x.n, x.arr[i] == k)),
+                             [r.dom[k]]),
+                   sym.forall([i], z3.Implies(z3.And(i >= 0, i < x.n), r.dom[x.arr[i]]), [x.arr[i]]))
         return r
     raise sx.Unsupported("set of " + repr(x))
 
@@ -425,7 +425,11 @@ def do_sum(run, x):
     if isinstance(x, DictView) and x.what == 'values':
         d = x.d
         if d.typ.v is TNumK:
-            raise sx.Unsupported("sum over NumK dict values goes through sum_numk")
+            pr = proj_r(run, d.val)
+            k = z3.Const(fresh_name('sk'), d.typ.k.sort())
+            np_ = z3.Exists([k], z3.And(d.dom[k], TNumK.sort().accessor(0, 1)(d.val[k])))
+            fin = sym.forall([k], z3.Implies(d.dom[k], TNumK.sort().accessor(0, 2)(d.val[k])))
+            return SNum(lemmas.msum_dv(TDict(d.typ.k, TNum), d.dom, pr), np_, fin)
         return SNum(lemmas.msum(d.typ, d.get()))
     if isinstance(x, SList):
         if x.typ.e is TNumK:
@@ -453,7 +457,7 @@ def do_extremum(run, name, x):
         cmp = (lambda a, b: a <= b) if name == 'max' else (lambda a, b: a >= b)
         valk = _real_of(d, k)
         run.pc += [d.dom[w], _real_of(d, w) == m,
-                   z3.ForAll([k], z3.Implies(d.dom[k], cmp(valk, m)), patterns=[d.val[k]])]
+                   sym.forall([k], z3.Implies(d.dom[k], cmp(valk, m)), [d.val[k]])]
         if d.typ.v is TNumK:
             nk = TNumK.wrap(d.val[w])
             return SNum(m, nk.np, nk.fin)
@@ -465,9 +469,31 @@ def do_extremum(run, name, x):
         m = z3.Real(fresh_name(name))
         cmp = (lambda a, b: a <= b) if name == 'max' else (lambda a, b: a >= b)
         run.pc += [w >= 0, w < x.n, x.arr[w] == m,
-                   z3.ForAll([i], z3.Implies(z3.And(i >= 0, i < x.n), cmp(x.arr[i], m)), patterns=[x.arr[i]])]
+                   sym.forall([i], z3.Implies(z3.And(i >= 0, i < x.n), cmp(x.arr[i], m)), [x.arr[i]])]
         return SNum(m)
     raise sx.Unsupported(name + " of " + repr(x))
+
+
+_PROJ = {}
+
+
+def proj_r_term(val):
+    """the array of value parts of a NumK-valued array"""
+    key = str(val.sort())
+    if key not in _PROJ:
+        _PROJ[key] = z3.Function('proj_r', val.sort(), z3.ArraySort(val.sort().domain(), z3.RealSort()))
+    return _PROJ[key](val)
+
+
+def proj_r_axiom(val):
+    k = z3.Const(fresh_name('prk'), val.sort().domain())
+    p = proj_r_term(val)
+    return sym.forall([k], p[k] == TNumK.sort().accessor(0, 0)(val[k]), [p[k]])
+
+
+def proj_r(run, val):
+    run.assume(proj_r_axiom(val))
+    return proj_r_term(val)
 
 
 def _real_of(d, k):
@@ -558,8 +584,8 @@ def call_method(run, recv, name, args, kwargs, node):
             new = run.fresh(lt, 'shift')
             i = z3.Int(fresh_name('sh'))
             run.assume(new.n == old_n - 1,
-                       z3.ForAll([i], z3.Implies(z3.And(i >= 0, i < old_n - 1), new.arr[i] == old_arr[i + 1]),
-                                 patterns=[new.arr[i]]))
+                       sym.forall([i], z3.Implies(z3.And(i >= 0, i < old_n - 1), new.arr[i] == old_arr[i + 1]),
+                                 [new.arr[i]]))
             recv.set(new.get())
             return first
         if name == 'copy':
@@ -642,8 +668,8 @@ def call_callback(run, f, args, kwargs, node):
             res = run.fresh(lt, 'preds')
             i = z3.Int(fresh_name('bi'))
             run.assume(res.n == x.n,
-                       z3.ForAll([i], z3.Implies(z3.And(i >= 0, i < x.n), res.arr[i] == model_apply(f.t, x.arr[i])),
-                                 patterns=[res.arr[i]]))
+                       sym.forall([i], z3.Implies(z3.And(i >= 0, i < x.n), res.arr[i] == model_apply(f.t, x.arr[i])),
+                                 [res.arr[i]]))
             run.events.append({'kind': 'model_batch', 'xs': x.get(), 'value': res.get(), 'line': run.cur_line,
                                'count': x.n})
             run.trusted.add('assumption: the model applied to a list returns the list of its single-instance outputs')
